@@ -40,6 +40,23 @@ def far_cases(rng, p):
     return out
 
 
+def revisit_cases(rng, p, n):
+    """single-tempo charts whose N lines come back to a tick they have left (0, 32, 0, 200 …): every order is accepted there, a note is
+    a run of *adjacent* lines of one tick, and its predecessor is the note written just before it"""
+    out = []
+    for _ in range(n):
+        src = gen.rand_src(rng, p)
+        src.tempo, src.tss, src.anchors, src.gevents, src.unknown = [(0, rng.choice([120000, 90000]))], [(0, 4, None)], [], [], []
+        ticks = [rng.choice([0, 32, 64, 100, 200, 201, 500]) for _ in range(rng.randint(3, 7))]
+        ticks = [t_ for k_, t_ in enumerate(ticks) if k_ == 0 or t_ != ticks[k_ - 1]]   # adjacent equal ticks would be one note
+        if len(set(ticks)) == len(ticks):
+            ticks.append(ticks[0])
+        groups = [gen.NoteGroup(t_, {rng.randrange(5): 0} if rng.random() < 0.8 else {0: 0, 3: 0}) for t_ in ticks]
+        src.tracks = [gen.TrackSrc(rng.randrange(10), rng.randrange(4), groups, [], [])]
+        out.append((src, gen.render(src, rng, p, garbage=False)))
+    return out
+
+
 def run(ctx, out, cases, project, truth_project, label, nontrivial, also=None):
     """cases: list of (src, Rendered). project(notes list of one track) / truth_project(truth list) must be comparable."""
     a, b = common.run_charts([(R.text, None) for _, R in cases])
